@@ -225,7 +225,8 @@ def _resp_persisted(ticks: list[dict[str, Any]], uid: int) -> bool:
     return False
 
 
-def execute(ex: Execution, pname: str, backend: str, crash_at: int | None, network: bool = False) -> tuple[Any, list[Any]]:
+def execute(ex: Execution, pname: str, backend: str, crash_at: int | None, network: bool = False,
+            crash_at2: int | None = None) -> tuple[Any, list[Any]]:
     """``network``: the second process reads the store like a network-backed one (Postgres, agent-data) - reading a
     handler row or the tick log suspends, so client requests can arrive while the start-up resume is under way"""
     prog = PROGRAMS[pname]
@@ -237,53 +238,97 @@ def execute(ex: Execution, pname: str, backend: str, crash_at: int | None, netwo
     v: list[Any] = []
     w = {"program": pname, "backend": backend}
     late = bool(prog.get("answer_after_restart"))
-    # ---------------- phase 1: the first process
-    e = EngineExec(ex, RunConfig(max_actions=120, allow_time=False))
-    e.__enter__()
-    crashed = False
-    vt = 0.0
-    phase1_bodies = 0
-    sent_add_events = 0
-    ext_sends = {"n": 0}
-    try:
+    cur_store = {"s": store}
+
+    def lost_kind(ticks_now: list[dict[str, Any]], sent: int, adds_before: int) -> str:
+        """root-cause context of a crash point: what the stopped process had accepted but not yet made durable"""
+        persisted_adds = sum(1 for td in ticks_now if td.get("type") == "add_event") - adds_before
+        last = ticks_now[-1] if ticks_now else {}
+        if last.get("type") == "step_result" and not _is_terminal_tick(last, pname) and any(
+                (r.get("type") == "result" and r.get("result") is not None) or r.get("type") == "failed" for r in last.get("result", [])):
+            return "step_output_not_yet_queued"
+        if sent > persisted_adds:
+            return "sent_event_not_yet_persisted"
+        return "none"
+
+    def process(first: bool, vt0: float, ctl_: Any) -> dict[str, Any]:
+        """one server process: the first one starts the run, a later one resumes it from the surviving store; it runs until
+        nothing is enabled or until ``ctl_`` stops it right after a persisted tick"""
+        st = cur_store["s"]
+        if not first:
+            st = st if backend == "memory" else SqliteWorkflowStore(path, poll_interval=1.0, auto_migrate=False)
+            cur_store["s"] = st
+        lp = VLoop()
+        lp.vt = vt0
+        e_ = EngineExec(ex, RunConfig(max_actions=120, allow_time=False), loop=lp)
+        e_.__enter__()
+        crashed_ = False
+        ext = {"n": 0}
+        ticks0 = [] if first else _persisted_ticks(lp, st, "run1")
+        adds_before = sum(1 for td in ticks0 if td.get("type") == "add_event")
         try:
-            ctl.arm(store)
-            stack = sh.Stack(store, idle_timeout=10_000.0, wrap_basic=MonRuntime)
-            wf = prog["make"]()(timeout=None)
-            stack.add_workflow("wf", wf)
+            try:
+                ctl_.arm(st)
+                stack = sh.Stack(st, idle_timeout=10_000.0, wrap_basic=MonRuntime)
+                wf = prog["make"]()(timeout=None)
+                stack.add_workflow("wf", wf)
 
-            async def boot() -> None:
-                await stack.service.start()
-                await stack.service.start_workflow(wf, "h1", StartEvent())
+                async def boot() -> None:
+                    await stack.service.start()
+                    if first:
+                        await stack.service.start_workflow(wf, "h1", StartEvent())
 
-            e.loop.create_task(boot())
-            for key, uid in ([] if (late and crash_at is not None) else prog["responses"]):
-                def _send(key: str = key, uid: int = uid) -> None:
-                    ext_sends["n"] += 1
-                    e.loop.create_task(stack.service.send_event("h1", Resp(uid=uid, key=key)))
+                e_.loop.create_task(boot())
+                for key, uid in ([] if (late and crash_at is not None and first) else prog["responses"]):
+                    if not first and _resp_persisted(ticks0, uid):
+                        continue  # (a restarted client re-sends only what had no durable effect)
 
-                e.add_script([Action(f"send Resp({key})#{uid}", _send)])
-            if prog.get("cancel"):
-                e.add_script([Action("cancel h1", lambda: e.loop.create_task(stack.service.cancel_handler("h1")))])
-            e.drive()
-        except sh.Crash:
-            crashed = True
-        vt = e.loop.vt
-        phase1_bodies = len(e.h.invocations)
-        n_persisted = ctl.count
-        # events handed to the run's mailbox by this process (ctx.send_event, queued step outputs, external sends)
-        sent_add_events = sum(1 for t in e.h.internal_sends if type(t).__name__ == "TickAddEvent") + ext_sends["n"]
-    finally:
-        if crashed:
-            sh.bury(e.loop)
-            e.abandon()
-        else:
-            e.__exit__(None, None, None)
+                    def _send(key: str = key, uid: int = uid) -> None:
+                        ext["n"] += 1
+                        e_.loop.create_task(stack.service.send_event("h1", Resp(uid=uid, key=key)))
+
+                    e_.add_script([Action(f"{'send' if first else 'resend'} Resp({key})#{uid}", _send)])
+                if prog.get("cancel") and (first or not any(td.get("type") == "cancel_run" for td in ticks0)):
+                    e_.add_script([Action("cancel h1" if first else "cancel h1 again", lambda: e_.loop.create_task(stack.service.cancel_handler("h1")))])
+                e_.drive()
+            except sh.Crash:
+                crashed_ = True
+            sent = sum(1 for t in e_.h.internal_sends if type(t).__name__ == "TickAddEvent") + ext["n"]
+            out = {"crashed": crashed_, "vt": e_.loop.vt, "sent": sent, "n_persisted": ctl_.count, "adds_before": adds_before}
+        finally:
+            if crashed_:
+                sh.bury(e_.loop)
+                e_.abandon()
+            else:
+                e_.__exit__(None, None, None)
+            ctl_.disarm(st)
+        return out
+
+    # ---------------- phase 1: the first process
+    p1 = process(True, 0.0, ctl)
+    crashed, vt, sent_add_events, n_persisted = p1["crashed"], p1["vt"], p1["sent"], p1["n_persisted"]
     if crash_at is not None and not crashed:
         # the run has fewer than crash_at ticks on this schedule: nothing to restart (covered by smaller k)
         return {"skipped": True, "ticks": n_persisted, "_metrics": {"max_concurrency": 1}}, []
+    lost_first = "none"
+    if crash_at2 is not None:
+        # ---------------- phase 1b: the restarted process is stopped as well, after the j-th tick IT persisted
+        lp0 = VLoop()
+        lp0.install()
+        try:
+            t1 = _persisted_ticks(lp0, store if backend == "memory" else SqliteWorkflowStore(path, poll_interval=1.0, auto_migrate=False), "run1")
+        finally:
+            lp0.teardown()
+        lost_first = lost_kind(t1, sent_add_events, 0)
+        p2 = process(False, vt, sh.CrashControl(crash_at2))
+        if not p2["crashed"]:
+            return {"skipped": True, "ticks": n_persisted + p2["n_persisted"], "_metrics": {"max_concurrency": 1}}, []
+        vt, sent_add_events = p2["vt"], p2["sent"]
+        adds_before_last = p2["adds_before"]
+    else:
+        adds_before_last = 0
+    store = cur_store["s"]
     # ---------------- phase 2: a fresh process on the surviving store
-    ctl.disarm(store)
     store2 = store if backend == "memory" else SqliteWorkflowStore(path, poll_interval=1.0, auto_migrate=False)
     if network:
         sh.make_yielding(store2, ticks=True)
@@ -314,14 +359,10 @@ def execute(ex: Execution, pname: str, backend: str, crash_at: int | None, netwo
         obs = {"status": status, "result": result, "ticks_at_crash": len(ticks), "bodies_after_restart": len(bodies2),
                "_metrics": {"max_concurrency": 2 if crashed else 1}}
         # root-cause context of the crash point
-        persisted_adds = sum(1 for td in ticks if td.get("type") == "add_event")
         last = ticks[-1] if ticks else {}
-        lost = "none"
-        if last.get("type") == "step_result" and not _is_terminal_tick(last, pname) and any(
-                (r.get("type") == "result" and r.get("result") is not None) or r.get("type") == "failed" for r in last.get("result", [])):
-            lost = "step_output_not_yet_queued"
-        elif sent_add_events > persisted_adds:
-            lost = "sent_event_not_yet_persisted"
+        lost = lost_kind(ticks, sent_add_events, adds_before_last)
+        if lost == "none" and lost_first != "none":
+            lost = lost_first  # (two stops: the first one already lost something)
         h0 = _handler(loop2, store2)
         idle_flag = bool(h0 is not None and h0.idle_since is not None)
         nonmatching_in_log = pname == "wait_requirements" and _resp_persisted(ticks, 100)
@@ -329,7 +370,11 @@ def execute(ex: Execution, pname: str, backend: str, crash_at: int | None, netwo
               "nonmatching_response_in_log": nonmatching_in_log}
         if network:
             wk["store_reads_suspend"] = True
-        desc = (f"[{backend}] {pname}: process stopped after persisted tick {crash_at} (a {last.get('type')} tick) "
+        if crash_at2 is not None:
+            wk["process_stops"] = 2
+        desc = (f"[{backend}] {pname}: process stopped after persisted tick {crash_at}"
+                + (f", restarted, stopped again after its own persisted tick {crash_at2}" if crash_at2 is not None else "")
+                + f" (a {last.get('type')} tick) "
                 f"({[t.get('type') for t in ticks][-3:]} ...), restarted; schedule {ex.labels}")
         want_status, want_result = prog.get("expected_status", "completed"), prog["expected"]
         if prog.get("cancel"):
@@ -360,6 +405,15 @@ def programs(tier: str) -> list[Program]:
                 ps.append(Program(f"{pname}/{backend}/crash_after_tick_{k:02d}", {"program": pname, "backend": backend, "crash_at": k},
                                   (lambda ex, pname=pname, backend=backend, k=k: execute(ex, pname, backend, k)),
                                   max_dev=(1 if q else 2)))
+    # two process stops: the restarted server is stopped again after the j-th tick it persisted itself
+    for pname in (("chain", "fanin") if q else [p for p in PROGRAMS if p != "wait_busy_answer_after_restart"]):
+        for backend in (("sqlite",) if q else ("memory", "sqlite")):
+            for k in ((2, 4, 6) if q else range(1, 13)):
+                for j in ((1, 2) if q else range(1, 7)):
+                    ps.append(Program(f"{pname}/{backend}/crash_after_tick_{k:02d}_then_{j:02d}",
+                                      {"program": pname, "backend": backend, "crash_at": k, "crash_at2": j},
+                                      (lambda ex, pname=pname, backend=backend, k=k, j=j: execute(ex, pname, backend, k, crash_at2=j)),
+                                      max_dev=(1 if q else 2)))
     # a network-backed store: reading suspends, so the client's answer can arrive at any point of the start-up resume
     for pname in ("wait_busy_answer_after_restart",):
         for backend in ("memory", "sqlite"):
@@ -375,7 +429,8 @@ RULE = ("9 deterministic workflows (3-step chain, fan-out/fan-in with collect_ev
         "order-sensitive fan-in, zero-delay retries, catch_error recovery, waiter + "
         "external response without / with requirements, a step failure that ends the run, a run cancelled by the client at any point) on the real server stack over MemoryWorkflowStore (instance survives) and "
         "SqliteWorkflowStore (file survives) x process stop right after the k-th persisted tick for every k up to the length of the log "
-        "x a fresh stack resuming through PersistenceDecorator.launch() x all schedules of both phases within the deviation bound; the "
+        "x a fresh stack resuming through PersistenceDecorator.launch() (optionally stopped again after the j-th tick it persisted itself, "
+        "and restarted once more) x all schedules of all phases within the deviation bound; the "
         "resumed handler must end completed with the uninterrupted result, and a log that already contains the terminal tick must be "
         "finalized without running a step; non-trivial = executions that actually restarted")
 
